@@ -198,8 +198,10 @@ class Ctx:
         default positions of those qubits (trap coordinates i for qubit i)."""
         w = {i: weights[i] for i in range(min(len(weights), self.nq))}
         if self.mappable:
-            traps = {self.trap_of_coord[tuple(np.round(self.coords[i], 6))]: x for i, x in w.items()}
-            return self.mreg.define_detuning_map(traps)
+            # (directly: RegisterLayout.define_detuning_map refuses a single trap, finding F13d)
+            from pulser.register.weight_maps import DetuningMap
+
+            return DetuningMap(trap_coordinates=[self.coords[i] for i in w], weights=[w[i] for i in w])
         reg = self.register
         ids = list(reg.qubit_ids)
         return reg.define_detuning_map({ids[i]: x for i, x in w.items()})
@@ -840,7 +842,7 @@ class Parametrizer:
                     op["qs"] = int_expr(pool, qs[0], "idx")
                 elif x < 0.74 and qs:
                     # a COLLECTION with parametrized items: accepted when stored (the index check skips
-                    # parametrized items) -- see finding F25
+                    # parametrized items) -- see finding F-C08-1
                     self.positions["target_index.list_of_items"] = \
                         self.positions.get("target_index.list_of_items", 0) + 1
                     op["qs"] = [int_expr(pool, q, "idx") for q in qs]
